@@ -4,7 +4,7 @@ use std::convert::Infallible;
 /// Creates an observable which will fire at `dur` time into the future,
 /// and will repeat every `dur` interval after.
 pub fn interval<S>(dur: Duration, scheduler: S) -> IntervalObservable<S> {
-  IntervalObservable { dur, delay: None, scheduler }
+  IntervalObservable { dur, at: None, scheduler }
 }
 
 /// Creates an observable which will fire at the time specified by `at`,
@@ -14,22 +14,14 @@ pub fn interval_at<S>(
   dur: Duration,
   scheduler: S,
 ) -> IntervalObservable<S> {
-  let now = Instant::now();
-  #[cfg(feature = "verif_hooks")]
-  let now = crate::verif_hooks::now().unwrap_or(now);
-  let delay = if at > now {
-    at - now
-  } else {
-    Duration::from_micros(0)
-  };
-  IntervalObservable { scheduler, dur, delay: Some(delay) }
+  IntervalObservable { scheduler, dur, at: Some(at) }
 }
 
 #[derive(Clone)]
 pub struct IntervalObservable<S> {
   scheduler: S,
   dur: Duration,
-  delay: Option<Duration>,
+  at: Option<Instant>,
 }
 
 impl<S, O> Observable<usize, Infallible, O> for IntervalObservable<S>
@@ -40,8 +32,21 @@ where
   type Unsub = TaskHandle<NormalReturn<()>>;
 
   fn actual_subscribe(self, observer: O) -> Self::Unsub {
-    let Self { scheduler, dur, delay } = self;
-    scheduler.schedule(RepeatTask::new(dur, interval_task, observer), delay)
+    let Self { scheduler, dur, at } = self;
+    // The first tick is due one period after the subscription, or at the
+    // given instant (immediately if that instant has passed already); every
+    // later one a period after the previous.
+    let first = match at {
+      None => dur,
+      Some(at) => {
+        let now = Instant::now();
+        at.saturating_duration_since(now)
+      }
+    };
+    scheduler.schedule(
+      RepeatTask::with_first_delay(first, dur, interval_task, observer),
+      None,
+    )
   }
 }
 
